@@ -251,6 +251,15 @@ def checkPop (j : Json) : Except String Verdict := do
 
 def checkCase (j : Json) : Except String Verdict := do
   match (← jstr j "kind") with
+  | "loopstress" =>
+    -- first questions about one group arriving together: exactly one refresh loop is started
+    let num (k : String) : Int := (j.getObjVal? k).toOption.bind (·.getInt?.toOption) |>.getD 0
+    let mut v : Verdict := { nontrivial := true }
+    v := v.cmp 0 "loopstress.started" ((1 : Int), (1 : Int)) (num "minStarted", num "maxStarted") ["C17"]
+    if num "maxStarted" > 1 then
+      v := v.mon "C17" "single_loop_per_group" 0 s!"{num "maxStarted"} refresh loops started for one group by {num "callers"} simultaneous callers"
+    if num "minStarted" < 1 then v := v.mon "C17" "single_loop_per_group" 0 "no loop started at all"
+    pure (v.br "loopstress")
   | "pop" => checkPop j
   | "gc" => checkGc j
   | "fc" => checkFc j
